@@ -38,11 +38,28 @@ def responsePduLen (adu : Bytes) : Res (Option Nat) :=
     if adu.length > 9 then (read16 adu 8).bind fun c => .ok (some (3 + c.toNat)) else .ok none
   else .err (.fnCode fnCode)
 
-/-- `tcp::extract_frame(buf, pdu_len)`; `7 + pdu_len` and `pdu_len + 1` are checked `usize` additions -/
+/-- `check_protocol_id`: the protocol identifier of the MBAP header, as soon as its bytes are there -/
+def checkProtocolId (adu : Bytes) : Res Unit :=
+  if adu.length ≥ 4 then
+    (read16 adu 2).bind fun protocolId =>
+    if protocolId != 0 then .err (.protocolNotModbus protocolId) else .ok ()
+  else .ok ()
+
+/-- the length field against the predicted PDU length, as soon as its bytes are there -/
+def checkLengthField (buf : Bytes) (pduLen : Nat) : Res Unit :=
+  if buf.length ≥ 6 then
+    (read16 buf 4).bind fun mLength =>
+    if mLength.toNat ≠ pduLen + 1 then .err (.lengthMismatch mLength.toNat (pduLen + 1)) else .ok ()
+  else .ok ()
+
+/-- `tcp::extract_frame(buf, pdu_len)`; `7 + pdu_len` and `pdu_len + 1` are checked `usize` additions.
+    The header is verified before the size test (and, as in the Rust, once more after it). -/
 def extractFrame (buf : Bytes) (pduLen : Nat) : Res (Option Frame) :=
   if buf.isEmpty then .err .bufferSize else
   if 7 + pduLen ≥ usizeLimit then .panic else
   let aduLen := 7 + pduLen
+  (checkProtocolId buf).bind fun _ =>
+  (checkLengthField buf pduLen).bind fun _ =>
   if buf.length ≥ aduLen then
     let aduBuf := buf.take aduLen
     (read16 aduBuf 2).bind fun protocolId =>
@@ -54,8 +71,11 @@ def extractFrame (buf : Bytes) (pduLen : Nat) : Res (Option Frame) :=
     .ok (some { transactionId := transaction, unitId := unit, pdu := aduBuf.drop 7 })
   else .ok none
 
-def attemptReq : Attempt Frame := mkAttempt requestPduLen extractFrame 7
-def attemptRsp : Attempt Frame := mkAttempt responsePduLen extractFrame 7
+/-- in `tcp::decode` the protocol identifier is checked before the length is predicted -/
+def attemptReq : Attempt Frame :=
+  mkAttempt (fun raw => (checkProtocolId raw).bind fun _ => requestPduLen raw) extractFrame 7
+def attemptRsp : Attempt Frame :=
+  mkAttempt (fun raw => (checkProtocolId raw).bind fun _ => responsePduLen raw) extractFrame 7
 
 /-- `tcp::decode(DecoderType::Request, buf)` -/
 def decodeReq (buf : Bytes) : Res (Option (Frame × Loc)) := scan attemptReq buf
